@@ -84,6 +84,7 @@ func init() {
 			sc.SetInt("complete", g.Intn(2))
 			sc.SetInt("error", g.Intn(2))
 			sc.SetInt("add", g.Range(0, 2))
+			sc.SetInt("addlate", g.Intn(2))
 			return sc
 		},
 		Run: runTeardownRace,
@@ -260,20 +261,28 @@ func runTeardownRace(e *Env) {
 		}()
 		f()
 	}
-	closerReturned := false
+	closers, closersDone := 0, 0
 	for i := 0; i < sc.Int("unsub", 1); i++ {
-		e.Go("unsub", func() { guard("Unsubscribe", sub.Unsubscribe); closerReturned = true })
+		closers++
+		e.Go("unsub", func() { guard("Unsubscribe", sub.Unsubscribe); closersDone++ })
 	}
 	if ser != nil && sc.Int("complete", 0) == 1 {
-		e.Go("complete", func() { guard("Complete", ser.Complete); closerReturned = true })
+		closers++
+		e.Go("complete", func() { guard("Complete", ser.Complete); closersDone++ })
 	}
 	if ser != nil && sc.Int("error", 0) == 1 {
-		e.Go("error", func() { guard("Error", func() { ser.Error(ScriptError(1)) }); closerReturned = true })
+		closers++
+		e.Go("error", func() { guard("Error", func() { ser.Error(ScriptError(1)) }); closersDone++ })
 	}
 	for j := 0; j < sc.Int("add", 0); j++ {
 		idx := nt + j
 		e.Go("add", func() {
-			closedBefore := closerReturned // disposal is over: some Unsubscribe/Complete/Error call has returned
+			if sc.Int("addlate", 0) == 1 {
+				e.WaitFor(func() bool { return closersDone == closers })
+			}
+			// disposal is certainly over once every closing call has returned (a concurrent Unsubscribe
+			// may return while another caller is still running the finalizers)
+			closedBefore := closersDone == closers
 			guard("Add", func() { sub.Add(mk(idx)) })
 			if closedBefore && counts[idx] != 1 {
 				e.Violate("C03", "add-after-disposal", fmt.Sprintf("Add on a closed subscription returned with the teardown run %d times (want 1, immediately)", counts[idx]))
